@@ -76,6 +76,104 @@ Proof.
 Qed.
 
 (* ---------------------------------------------------------------------------------- *)
+(* round trip for ANY caller flag: marshalling bits left on the packet (by an earlier encode of
+   the same object, or set by the caller) are dropped by the encoder, so the packet behaves as
+   its normal form *)
+
+Definition normalize (p : packet) : packet := set_flag p (N.ldiff (p_flag p) fMarshal).
+
+Definition flags_norm_ok (f : N) : bool :=
+  let f0 := N.ldiff f fMarshal in
+  (f0 <? 256) && (N.land f0 3 =? 0) && (N.land f0 fError =? N.land f fError)
+  && (N.ldiff f0 fMarshal =? f0).
+
+Lemma flags_norm_sweep f : f < 256 -> flags_norm_ok f = true.
+Proof.
+  intros H.
+  assert (E : forallb flags_norm_ok (map N.of_nat (seq 0 256)) = true) by (vm_compute; reflexivity).
+  rewrite forallb_forall in E. apply E.
+  apply in_map_iff. exists (N.to_nat f). split; [lia|]. apply in_seq. lia.
+Qed.
+
+Lemma flags_norm_facts f : f < 256 ->
+  N.ldiff f fMarshal < 256 /\ N.land (N.ldiff f fMarshal) 3 = 0
+  /\ N.land (N.ldiff f fMarshal) fError = N.land f fError
+  /\ N.ldiff (N.ldiff f fMarshal) fMarshal = N.ldiff f fMarshal.
+Proof.
+  intros H. pose proof (flags_norm_sweep f H) as S. unfold flags_norm_ok in S. cbv zeta in S.
+  repeat (apply andb_prop in S; destruct S as [S ?]).
+  repeat match goal with
+         | H : (_ =? _) = true |- _ => apply N.eqb_eq in H
+         | H : (_ <? _) = true |- _ => apply N.ltb_lt in H
+         end.
+  repeat split; assumption.
+Qed.
+
+Lemma normalize_sendable p : wf_packet p -> body_ok p ->
+  wf_packet (normalize p) /\ clean_flags (normalize p) /\ body_ok (normalize p).
+Proof.
+  intros W B. destruct (flags_norm_facts _ (wf_flag p W)) as (F1 & F2 & F3 & _).
+  split; [|split].
+  - destruct W. constructor; cbn [normalize set_flag p_cmd p_seq p_flag p_typ p_node p_refers]; assumption.
+  - unfold clean_flags. cbn. exact F2.
+  - unfold body_ok in *. cbn [normalize set_flag p_flag p_body]. rewrite F3. exact B.
+Qed.
+
+Lemma marshal_body_normalize enc zip thr hc p : p_flag p < 256 ->
+  marshal_body enc zip thr hc (normalize p) = marshal_body enc zip thr hc p.
+Proof.
+  intros Hf. destruct (flags_norm_facts _ Hf) as (_ & _ & _ & F4).
+  unfold marshal_body. cbn [normalize set_flag p_flag p_body]. rewrite F4. reflexivity.
+Qed.
+
+Lemma write_v1_normalize enc zip thr hc p : p_flag p < 256 ->
+  write_v1 enc zip thr hc (normalize p) = write_v1 enc zip thr hc p.
+Proof.
+  intros Hf. unfold write_v1. rewrite marshal_body_normalize by assumption.
+  destruct (marshal_body enc zip thr hc p) as [b fl]. reflexivity.
+Qed.
+
+Lemma write_v2_normalize enc zip thr hc p n ws p' : p_flag p < 256 ->
+  write_v2 enc zip thr hc p = mkWres (Some n) ws p' ->
+  write_v2 enc zip thr hc (normalize p) = mkWres (Some n) ws p'.
+Proof.
+  intros Hf H. unfold write_v2 in *. cbn [normalize set_flag p_refers] in *.
+  destruct (max_u8 <? lenN (p_refers p)); [discriminate|].
+  rewrite marshal_body_normalize by assumption.
+  destruct (marshal_body enc zip thr hc p) as [b fl]. exact H.
+Qed.
+
+Lemma roundtrip_v1_any enc dec zip unzip : codec_env enc dec zip unzip ->
+  forall thr has_c p n ws p' s rest,
+  wf_packet p -> body_ok p ->
+  write_v1 enc zip thr has_c p = mkWres (Some n) ws p' ->
+  concat s = concat ws ++ rest ->
+  exists q, r_out (read_packet_v1 dec unzip has_c s packet0) = Ok q
+            /\ concat (r_rest (read_packet_v1 dec unzip has_c s packet0)) = rest
+            /\ same_v1 (normalize p) q.
+Proof.
+  intros Env thr has_c p n ws p' s rest W B Hw Hs.
+  destruct (normalize_sendable p W B) as (W' & C' & B').
+  rewrite <- (write_v1_normalize enc zip thr has_c p (wf_flag p W)) in Hw.
+  exact (roundtrip_v1_fields enc dec zip unzip Env thr has_c (normalize p) n ws p' s rest W' C' B' Hw Hs).
+Qed.
+
+Lemma roundtrip_v2_any enc dec zip unzip : codec_env enc dec zip unzip ->
+  forall thr has_c p n ws p' s rest,
+  wf_packet p -> body_ok p ->
+  write_v2 enc zip thr has_c p = mkWres (Some n) ws p' ->
+  concat s = concat ws ++ rest ->
+  exists q, r_out (read_packet_v2 dec unzip has_c s packet0) = Ok q
+            /\ concat (r_rest (read_packet_v2 dec unzip has_c s packet0)) = rest
+            /\ same_v2 (normalize p) q.
+Proof.
+  intros Env thr has_c p n ws p' s rest W B Hw Hs.
+  destruct (normalize_sendable p W B) as (W' & C' & B').
+  apply (write_v2_normalize enc zip thr has_c p n ws p' (wf_flag p W)) in Hw.
+  exact (roundtrip_v2_fields enc dec zip unzip Env thr has_c (normalize p) n ws p' s rest W' C' B' Hw Hs).
+Qed.
+
+(* ---------------------------------------------------------------------------------- *)
 (* chunking independence: the result depends only on the concatenation of the chunks *)
 
 Definition rhb_same {A} (r1 r2 : rhb A) : Prop :=
@@ -283,7 +381,7 @@ Qed.
 (* the closed form used by the limit probes of the correspondence check *)
 Lemma marshal_plain enc zip thr p :
   lenN (body_bytes (p_body p)) <= thr ->
-  marshal_body enc zip thr false p = (body_bytes (p_body p), p_flag p).
+  marshal_body enc zip thr false p = (body_bytes (p_body p), N.ldiff (p_flag p) fMarshal).
 Proof.
   intros H. unfold marshal_body.
   destruct (N.ltb_spec thr (lenN (body_bytes (p_body p)))) as [X|_]; [lia|].
@@ -318,26 +416,24 @@ Qed.
 Definition only_flag_bits (p p' : packet) : Prop :=
   p_cmd p' = p_cmd p /\ p_seq p' = p_seq p /\ p_typ p' = p_typ p /\ p_node p' = p_node p
   /\ p_refers p' = p_refers p
-  /\ N.ldiff (p_flag p') 3 = N.ldiff (p_flag p) 3 /\ N.land (p_flag p) (p_flag p') = p_flag p.
+  /\ N.ldiff (p_flag p') 3 = N.ldiff (p_flag p) 3.
 
 Lemma marshal_flag_bits enc zip thr has_c p :
   p_flag p < 256 ->
-  let fl := snd (marshal_body enc zip thr has_c p) in
-  N.ldiff fl 3 = N.ldiff (p_flag p) 3 /\ N.land (p_flag p) fl = p_flag p.
+  N.ldiff (snd (marshal_body enc zip thr has_c p)) 3 = N.ldiff (p_flag p) 3.
 Proof.
-  intros Hf. pose proof (flags_caller_sweep _ Hf) as H. unfold flags_caller_ok in H.
+  intros Hf. pose proof (flags_caller_sweep _ Hf) as H. unfold flags_caller_ok in H. cbv zeta in H.
   repeat (apply andb_prop in H; destruct H as [H ?]).
   repeat match goal with H : (_ =? _) = true |- _ => apply N.eqb_eq in H end.
-  unfold marshal_body.
+  unfold marshal_body. cbv zeta.
   destruct ((0 <? thr) && (thr <? lenN (body_bytes (p_body p))));
-    match goal with |- context [if ?c then _ else _] => destruct c end; cbn [snd];
-    split; try assumption; try reflexivity; apply N.land_diag.
+    match goal with |- context [if ?c then _ else _] => destruct c end; cbn [snd]; assumption.
 Qed.
 
 Lemma write_v1_caller enc zip thr has_c p :
   p_flag p < 256 -> only_flag_bits p (w_pkt (write_v1 enc zip thr has_c p)).
 Proof.
-  intros Hf. pose proof (marshal_flag_bits enc zip thr has_c p Hf) as [B1 B2].
+  intros Hf. pose proof (marshal_flag_bits enc zip thr has_c p Hf) as B1.
   pose proof (write_v1_form enc zip thr has_c p) as F.
   destruct (marshal_body enc zip thr has_c p) as [b fl]. cbn [snd] in *. rewrite F.
   destruct (max1 <? hs1 + lenN b); cbn; repeat split; assumption.
@@ -346,11 +442,11 @@ Qed.
 Lemma write_v2_caller enc zip thr has_c p :
   p_flag p < 256 -> only_flag_bits p (w_pkt (write_v2 enc zip thr has_c p)).
 Proof.
-  intros Hf. pose proof (marshal_flag_bits enc zip thr has_c p Hf) as [B1 B2].
+  intros Hf. pose proof (marshal_flag_bits enc zip thr has_c p Hf) as B1.
   pose proof (write_v2_form enc zip thr has_c p) as F.
   destruct (marshal_body enc zip thr has_c p) as [b fl]. cbn [snd] in *. cbv zeta in F. rewrite F.
   destruct (max_u8 <? lenN (p_refers p)).
-  - cbn. repeat split. apply N.land_diag.
+  - cbn. repeat split.
   - destruct (max2 <? hs2 + lenN (p_refers p) * 4 + lenN b); cbn; repeat split; assumption.
 Qed.
 
